@@ -124,6 +124,7 @@ def main():
         rss0 = resource.getrusage(resource.RUSAGE_SELF).ru_maxrss
         mark("q" + r["mark"])
         t0 = time.monotonic()
+        c0 = time.process_time()
         signal.alarm(int(lim.get("alarm_s", 30)))
         try:
             st, h, b = srv.request(r["method"], r["path"], data=data, **hdrs)
@@ -137,6 +138,7 @@ def main():
         finally:
             signal.alarm(0)
         out["dt"] = time.monotonic() - t0
+        out["cpu"] = time.process_time() - c0
         if counting is not None:
             out["alloc_peak"] = max(0, tracemalloc.get_traced_memory()[1] - cur0)
             out["log_bytes"] = counting.bytes
